@@ -539,3 +539,7 @@ def vfloat(term, labels=frozenset()):
 
 def vbool(term, labels=frozenset()):
     return V("bool", term, shape=(), labels=labels)
+
+
+# names of the symbolic values that stand for caller-supplied data (filled by the harness)
+INPUT_SYMS = set()
